@@ -8,12 +8,12 @@ import (
 
 // vSrc serves data with nondeterministic chunking (all / 1 byte / 2 bytes per Read).
 type vSrc struct {
-	data  []byte
-	pos   int
-	reads int
-	name  string
-	whole bool // no chunking nondeterminism
-	one   bool // one byte per read
+	data    []byte
+	pos     int
+	reads   int
+	name    string
+	whole   bool // no chunking nondeterminism
+	one     bool // one byte per read
 	eofWith bool // deliver the last bytes together with io.EOF (allowed by the io.Reader contract)
 	ndLeft  int  // nondeterministic reads left (then whole reads); bounds the 3^reads fan-out
 	zero    bool // every other Read returns (0, nil) (legal, if discouraged, for an io.Reader)
